@@ -152,7 +152,9 @@ class StorageClientConfig:
         :param _Config config: The loaded Tahoe-LAFS node configuration.
         """
         ps = config.get_config("client", "peers.preferred", "").split(",")
-        preferred_peers = tuple([p.strip() for p in ps if p != ""])
+        # server ids (IServer.get_longname()) are bytes, and that is what
+        # get_servers_for_psi() looks up in this tuple
+        preferred_peers = tuple([p.strip().encode("utf-8") for p in ps if p != ""])
 
         enabled_storage_plugins = (
             name.strip()
